@@ -3,13 +3,18 @@ from . import register
 register("C05",
          lean_modules=["GtModel.Model.Lazy", "GtModel.Props.C05"],
          theorems=["GtModel.C05.no_internal_error_partial", "GtModel.C05.observations_nested_partial",
-                   "GtModel.C05.history_independent_partial", "GtModel.C05.no_internal_error_structural",
-                   "GtModel.C05.history_independent_structural", "GtModel.C05.editDistance_freed_cached",
-                   "GtModel.C05.editDistance_fresh_J"],
+                   "GtModel.C05.history_independent_partial", "GtModel.C05.no_internal_error_no_multiset", "GtModel.C05.observations_nested_no_multiset",
+                   "GtModel.C05.history_independent_no_multiset", "GtModel.C05.editDistance_freed_cached",
+                   "GtModel.C05.editDistance_fresh_J", "GtModel.C05.no_internal_error",
+                   "GtModel.C05.observations_nested", "GtModel.C05.history_independent",
+                   "GtModel.C05.mkEdit_refines_L2", "GtModel.C05.history_independent_L2",
+                   "GtModel.C05.observations_contain_L2_cost"],
          streams=["history", "script"],
-         assumptions=["AtomHyp / EditsHyp for the atom classes (see C04)",
-                      "the L3->L2 link scriptG(mkEdit ...) = edits ... is validated by the streams, not proved"],
+         assumptions=["AtomHyp / EditsHyp for the atom class MultiSetEdit (see C04)",
+                      "the L3->L2 link scriptG(mkEdit ...) = edits ... is PROVED for the fragment without MultiSetEdit "
+                      "(mkEdit_refines_L2); with MultiSetEdit it is validated by the streams only"],
          trusted=["harness/lazyinst.py"],
-         partial="no_internal_error / history_independent proved for const/kvp/str/fixed/coll machines over atoms "
-                 "obeying the protocol, for both values of quiet; unconditional for machines without atoms (fixed-key "
-                 "dicts, kvps, positional lists); EditDistance's freed=>cached invariant proved for arbitrary cells")
+         partial="no_internal_error / observations_nested / history_independent proved with NO hypothesis on the machine "
+                 "(both values of quiet) for from.edits(to) without MultiSetEdit (no DictNode on the from side, distinct "
+                 "keys, to-side in the domain fkOK; outside it: finding D24 / coll-ub); "
+                 "over MultiSetEdit atoms conditional on AtomHyp/EditsHyp")
